@@ -22,6 +22,12 @@ int __wrap_pthread_rwlock_rdlock(pthread_rwlock_t *);
 int __wrap_pthread_rwlock_unlock(pthread_rwlock_t *);
 }
 
+// update callbacks are installed on the live tables (as an application would): the code paths that only run with a callback
+// are then under the race detector and the linearizability oracle too
+static std::atomic<long> g_cb_calls{0};
+static void conc_pfx_cb(struct pfx_table *, const struct pfx_record, const bool) { g_cb_calls.fetch_add(1, std::memory_order_relaxed); }
+static void conc_spki_cb(struct spki_table *, const struct spki_record, const bool) { g_cb_calls.fetch_add(1, std::memory_order_relaxed); }
+
 template <typename T> static rc::Gen<T> rng(T lo, T hi) { return rc::gen::resize(rc::kNominalSize, rc::gen::inRange<T>(lo, (T)(hi + 1))); }
 using pm::Rec;
 using sm::Key;
@@ -312,8 +318,8 @@ static vf::Result run_det(const Case &c, Info *info)
 {
 	Traj t = trajectory(c);
 	struct pfx_table pt;
-	pfx_table_init(&pt, nullptr);
-	struct spki_table *st = shim_spki_table_new(nullptr);
+	pfx_table_init(&pt, conc_pfx_cb);
+	struct spki_table *st = shim_spki_table_new(conc_spki_cb);
 	g_lock_pfx = &pt.lock;
 	g_lock_spki = (pthread_rwlock_t *)shim_spki_lock(st);
 	vf::Result res;
@@ -397,8 +403,8 @@ static vf::Result run_thr(const Case &c, Info *info, int rounds)
 	vf::Result res;
 	for (int round = 0; round < rounds && res.ok; round++) {
 		struct pfx_table pt;
-		pfx_table_init(&pt, nullptr);
-		struct spki_table *st = shim_spki_table_new(nullptr);
+		pfx_table_init(&pt, conc_pfx_cb);
+		struct spki_table *st = shim_spki_table_new(conc_spki_cb);
 		sh.pt = &pt;
 		sh.st = st;
 		sh.started = 0;
